@@ -2,6 +2,7 @@
 #![allow(clippy::all)]
 
 pub mod conv;
+pub mod e2e;
 pub mod engine;
 pub mod gen;
 pub mod net;
